@@ -238,11 +238,8 @@ Definition rack_insert (s : st) (f : nat) (k : rackk) (idx : Z) (v : option nat)
     | None => (set_rack s f k (cleanup l2), ROk)
     | Some i =>
       if has_container w i then
-        (* roll-back: del self.__list[index] with the caller's index, then _cleanup *)
-        match norm_index (length l2) idx with
-        | Some n => (set_rack s f k (cleanup (list_del l2 n)), RExn XValue)
-        | None => (set_rack s f k l2, RExn XIndex)   (* IndexError raised inside the except block *)
-        end
+        (* roll-back: del self.__list[position] (the slot just inserted), then _cleanup *)
+        (set_rack s f k (cleanup (allocate l (idx - 1))), RExn XValue)
       else (add_item F (set_rack s f k l2) i (PRack f k), ROk)
     end.
 
@@ -339,9 +336,11 @@ Definition itemset_add (s : st) (f : nat) (k : setk) (i : nat) : st * res :=
   | Some c =>
     if negb (set_accepts k c) then (s, RExn XType)
     else
+      let was_present := mem neqb (get_setc w f k) i in
       let s1 := lift s (fun w => put_setc w f k (set_add neqb (get_setc w f k) i)) in
       if has_container w i
-      then (lift s1 (fun w => put_setc w f k (set_rm neqb (get_setc w f k) i)), RExn XValue)   (* set.remove(item) *)
+      then ((if was_present then s1
+             else lift s1 (fun w => put_setc w f k (set_rm neqb (get_setc w f k) i))), RExn XValue)
       else (add_item F s1 i (PSet f k), ROk)
   end.
 
@@ -700,18 +699,21 @@ Definition read_op (w : world) (d : derived) (o : op) : derived * res :=
   | _ => (d, ROk)
   end.
 
-Definition step (x : sys) (o : op) : sys * res :=
+(* one public call: new system state, result, and the publications it made *)
+Definition step_ev (x : sys) (o : op) : sys * res * list event :=
   let w := clear_err (s_w x) in
   let d := d_clear (s_d x) in
-  let '(w', d', r) :=
-      if is_read o then let (d', r) := read_op w d o in (w, d', r)
-      else let '((w', evs), r) := md_op w o in (w', apply_events d evs, r) in
+  let '(w', d', r, evs) :=
+      if is_read o then let (d', r) := read_op w d o in (w, d', r, [])
+      else let '((w', evs), r) := md_op w o in (w', apply_events d evs, r, evs) in
   (mkSys w' d',
    match w_err w', d_err d' with
    | Some e, _ => RExn (XInternal e)
    | None, Some e => RExn (XInternal e)
    | None, None => r
-   end).
+   end, evs).
+
+Definition step (x : sys) (o : op) : sys * res := fst (step_ev x o).
 
 Definition run (x : sys) (ops : list op) : sys := fold_left (fun x o => fst (step x o)) ops x.
 Definition init_sys (pen : list Q) : sys := mkSys empty_world (empty_derived pen).
